@@ -69,6 +69,11 @@ def zipReplace (it : Deque.Iter) (q1 q2 : Queue) (x y : Nat) (m : Mem) :
   let r := Deque.zipReplace it q1.d q2.d x y m
   (r.1, r.2.1, { q1 with d := r.2.2.1 }, { q2 with d := r.2.2.2.1 }, r.2.2.2.2)
 
+/-- `cc_queue_zip_iter_replace` with `q1 == q2` -/
+def zipReplaceSelf (it : Deque.Iter) (q : Queue) (x y : Nat) (m : Mem) : Stat × Option Nat × Option Nat × Queue × Mem :=
+  let r := Deque.zipReplaceSelf it q.d x y m
+  (r.1, r.2.1, r.2.2.1, { q with d := r.2.2.2.1 }, r.2.2.2.2)
+
 /-- content in iteration order (front of the inner deque first = newest element first) -/
 def abs (q : Queue) : List Nat := q.d.abs
 /-- the inner deque's invariant; header and inner deque were given the same triple -/
